@@ -226,6 +226,7 @@ type Arg struct {
 	I   int    `json:"i,omitempty"`
 	Int bool   `json:"int,omitempty"`
 	Var bool   `json:"var,omitempty"`
+	Sw  bool   `json:"sw,omitempty"` // the value is the sweep variable q of Case.Sweep (I / S are ignored)
 }
 
 func (a Arg) spell() string {
@@ -246,6 +247,9 @@ func (a Arg) varName() string {
 }
 
 func (a Arg) src() string {
+	if a.Sw {
+		return "q"
+	}
 	if a.Var {
 		return a.varName()
 	}
@@ -331,6 +335,46 @@ type Case struct {
 	Steps   []Step `json:"steps"`
 	Cuts    []Cut  `json:"cuts,omitempty"`
 	Twice   bool   `json:"twice,omitempty"` // the final expression is emitted twice: <%= e %>+<%= e %>
+	Sweep   *Sweep `json:"sweep,omitempty"` // the whole body is evaluated once per value of the variable q
+}
+
+// Sweep: the template body (lets + emit) sits in ONE loop body and is evaluated
+// once per value; the arguments marked Sw in the steps are the variable q:
+//
+//	key form:   for (q, qv) in sw {  ... q ...  }     q = 0..n-1
+//	value form: for (qk, q) in sw {  ... q ...  }     q = the values, in order
+//	let form:   for (qk, qv) in sw { let q = qv ... } q re-assigned in the same scope
+//
+// so the SAME expression node is evaluated several times in the same scope
+// while an inner index / key / argument changes.
+type Sweep struct {
+	Ints []int    `json:"ints,omitempty"`
+	Strs []string `json:"strs,omitempty"`
+	Key  bool     `json:"key,omitempty"`
+	Let  bool     `json:"let,omitempty"`
+}
+
+func (w *Sweep) n() int { return len(w.Ints) + len(w.Strs) }
+
+// stepsFor returns the steps with q replaced by its i-th value.
+func (c Case) stepsFor(i int) []Step {
+	out := make([]Step, len(c.Steps))
+	for k, s := range c.Steps {
+		out[k] = s
+		if len(s.A) > 0 {
+			out[k].A = append([]Arg(nil), s.A...)
+			for j := range out[k].A {
+				if a := &out[k].A[j]; a.Sw {
+					if a.Int {
+						a.I = c.Sweep.Ints[i]
+					} else {
+						a.S = c.Sweep.Strs[i]
+					}
+				}
+			}
+		}
+	}
+	return out
 }
 
 var ctxInts = []int{-1, 0, 1, 2, 3}
@@ -373,6 +417,44 @@ func (c Case) wellFormed() string {
 	if fors > 1 {
 		return "more than one for"
 	}
+	nsw := 0
+	for _, s := range c.Steps {
+		for _, a := range s.A {
+			if a.Sw {
+				nsw++
+				if c.Sweep == nil || a.Int != (len(c.Sweep.Ints) > 0) {
+					return "sweep argument without a sweep of its type"
+				}
+			}
+		}
+	}
+	if w := c.Sweep; w != nil {
+		if nsw == 0 || fors > 0 || c.Twice || w.n() == 0 || w.n() > 6 || len(w.Ints) > 0 && len(w.Strs) > 0 || w.Key && w.Let {
+			return "bad sweep"
+		}
+		for i, v := range w.Ints {
+			if v < -1 || v > 3 || w.Key && v != i {
+				return "bad sweep value"
+			}
+		}
+		for _, v := range w.Strs {
+			if !ident(v) || w.Key {
+				return "bad sweep value"
+			}
+		}
+		reserved := map[string]bool{"q": true, "qk": true, "qv": true, "sw": true}
+		if reserved[c.Root] {
+			return "root name reserved for the sweep"
+		}
+		for _, k := range c.Cuts {
+			if reserved[k.V] {
+				return "variable name reserved for the sweep"
+			}
+			if k.V == c.Root {
+				return "a let inside the sweep loop would overwrite the root for the next evaluation"
+			}
+		}
+	}
 	return ""
 }
 
@@ -383,6 +465,17 @@ func (c Case) template() string {
 	expr := c.Root
 	closing := ""
 	ci := 0
+	if w := c.Sweep; w != nil {
+		switch {
+		case w.Key:
+			sb.WriteString("<%= for (q, qv) in sw { %>")
+		case w.Let:
+			sb.WriteString("<%= for (qk, qv) in sw { %><% let q = qv %>")
+		default:
+			sb.WriteString("<%= for (qk, q) in sw { %>")
+		}
+		closing = ";<% } %>"
+	}
 	for i, s := range c.Steps {
 		if ci < len(c.Cuts) && c.Cuts[ci].At == i {
 			k := c.Cuts[ci]
@@ -432,6 +525,13 @@ func (c Case) data() map[string]interface{} {
 	}
 	for _, s := range ctxStrs {
 		d[Arg{S: s}.varName()] = s
+	}
+	if w := c.Sweep; w != nil {
+		if len(w.Strs) > 0 {
+			d["sw"] = append([]string(nil), w.Strs...)
+		} else {
+			d["sw"] = append([]int(nil), w.Ints...)
+		}
 	}
 	root := mkRoot(c.Variant)
 	if c.Ptr {
@@ -989,6 +1089,9 @@ func checkCase(r *vk.Run, c Case) (out *vk.Fail) {
 		return fail(cls, "%s: %s", where, res)
 	}
 
+	if c.Sweep != nil {
+		return judgeSweep(r, c, start, res, where, fail)
+	}
 	fc := c.forCut()
 	if fc < 0 {
 		w := walk(start, c.Steps)
@@ -997,7 +1100,111 @@ func checkCase(r *vk.Run, c Case) (out *vk.Fail) {
 	return judgeFor(r, c, fc, start, res, where, fail)
 }
 
+// judgeSweep: the body was evaluated once per value of q; the output is one
+// `value;` segment per value, each judged against the reference walk of the
+// path with q replaced by that value.
+func judgeSweep(r *vk.Run, c Case, start cur, res vk.Res, where string, fail failFn) *vk.Fail {
+	sig := c.sig()
+	n := c.Sweep.n()
+	want := make([]string, n) // "" = must be empty
+	whys := make([]string, n)
+	allOK := true
+	for i := 0; i < n; i++ {
+		steps := c.stepsFor(i)
+		w := walk(start, steps)
+		switch {
+		case w.unspec != "" || w.addrUnspe:
+			r.Exclude("unspecified/sweep-body")
+			return nil
+		case w.ok:
+			if sp := spellPath(steps); w.val != sp {
+				panic(fmt.Sprintf("harness: leaf reached by %s spells %q", sp, w.val))
+			}
+			want[i] = w.val
+		default:
+			allOK = false
+			whys[i] = w.why
+		}
+	}
+	cls := "sweep/every-value-completable"
+	if !allOK {
+		cls = "sweep/some-values-broken"
+	}
+	r.Count(c.key(), cls)
+	sample(r, c, c.template(), strings.Join(want, ";")+";", res)
+	if res.Err != nil {
+		if allOK {
+			shapeStats.add(sig, 1)
+			if k, ok := c.tolerated(r, "clean-failure"); ok {
+				r.Exclude(k)
+				return nil
+			}
+			return fail("clean-failure", "%s: the path is completable for every value of q (%v) but plush gave %s", where, want, res)
+		}
+		shapeStats.add(sig, 2)
+		return nil
+	}
+	segs := strings.Split(res.Out, ";")
+	if len(segs) != n+1 || segs[n] != "" {
+		shapeStats.add(sig, 3)
+		return fail("wrong-value", "%s: output %q is not %d segments terminated by ; (want %v)", where, res.Out, n, want)
+	}
+	clean := false
+	for i := 0; i < n; i++ {
+		switch v := segs[i]; {
+		case v == want[i]:
+		case v == "":
+			clean = true
+		case want[i] == "":
+			shapeStats.add(sig, 3)
+			return fail(wrongClass(whys[i]), "%s: evaluation %d (q = %s) cannot be completed (%s) but plush rendered %q for it (whole output %q)", where, i+1, c.sweepVal(i), whys[i], v, res.Out)
+		default:
+			shapeStats.add(sig, 3)
+			return fail("wrong-value", "%s: WRONG VALUE at evaluation %d (q = %s): Go navigation gives %q, plush gave %q (whole output %q, want %v)", where, i+1, c.sweepVal(i), want[i], v, res.Out, want)
+		}
+	}
+	if clean {
+		shapeStats.add(sig, 1)
+		if k, ok := c.tolerated(r, "clean-failure"); ok {
+			r.Exclude(k)
+			return nil
+		}
+		return fail("clean-failure", "%s: completable evaluations rendered empty: want %v, got %q", where, want, res.Out)
+	}
+	shapeStats.add(sig, 0)
+	return nil
+}
+
+func (c Case) sweepVal(i int) string {
+	if len(c.Sweep.Strs) > 0 {
+		return c.Sweep.Strs[i]
+	}
+	return strconv.Itoa(c.Sweep.Ints[i])
+}
+
+// unswept lists the case once per value of q, with q replaced (no sweep).
+func (c Case) unswept() []Case {
+	if c.Sweep == nil {
+		return []Case{c}
+	}
+	var out []Case
+	for i := 0; i < c.Sweep.n(); i++ {
+		k := c
+		k.Steps, k.Sweep = c.stepsFor(i), nil
+		out = append(out, k)
+	}
+	return out
+}
+
 func (c Case) hasNegativeIndex() bool {
+	if c.Sweep != nil {
+		for _, k := range c.unswept() {
+			if k.hasNegativeIndex() {
+				return true
+			}
+		}
+		return false
+	}
 	for _, s := range c.Steps {
 		if s.X && s.A[0].Int && s.A[0].I < 0 {
 			return true
@@ -1009,6 +1216,14 @@ func (c Case) hasNegativeIndex() bool {
 // refNilAtMethod: in the reference walk a nil pointer is met and a method call
 // is still to come (for a loop: for some element).
 func refNilAtMethod(start cur, c Case) bool {
+	if c.Sweep != nil {
+		for _, k := range c.unswept() {
+			if refNilAtMethod(start, k) {
+				return true
+			}
+		}
+		return false
+	}
 	at := func(from cur, steps []Step) (cur, bool, bool) { // value, completed, nil-at-method
 		for i, s := range steps {
 			var why string
@@ -1613,6 +1828,72 @@ func deepPaths(emit func(steps []Step)) {
 	}
 }
 
+// sweepsOf lists the sweep cases of a path (Variant / Ptr / Root left to the caller).
+func sweepsOf(steps []Step, letName string, innerOnly bool) []Case {
+	type pos struct{ s, a int }
+	var ints, strs []pos
+	for si, st := range steps {
+		for ai, a := range st.A {
+			if a.Var && a.Int {
+				ints = append(ints, pos{si, ai})
+			} else if a.Var {
+				strs = append(strs, pos{si, ai})
+			}
+		}
+	}
+	mark := func(ps []pos) []Step {
+		out := make([]Step, len(steps))
+		copy(out, steps)
+		for _, p := range ps {
+			out[p.s].A = append([]Arg(nil), out[p.s].A...)
+			out[p.s].A[p.a].Sw = true
+		}
+		return out
+	}
+	// inner: the argument comes after an earlier index or call step, or is a method argument
+	inner := func(p pos) bool {
+		if steps[p.s].M != "" {
+			return true
+		}
+		for _, st := range steps[:p.s] {
+			if st.X || st.M != "" {
+				return true
+			}
+		}
+		return false
+	}
+	var out []Case
+	add := func(ps []pos, w Sweep, cutAt int) {
+		if innerOnly && len(ps) == 1 && !inner(ps[0]) {
+			return
+		}
+		c := Case{Steps: mark(ps), Sweep: &w}
+		if cutAt > 0 {
+			c.Cuts = []Cut{{At: cutAt, V: letName}}
+		}
+		out = append(out, c)
+	}
+	for _, p := range ints {
+		add([]pos{p}, Sweep{Ints: []int{0, 1, 2}, Key: true}, 0)
+		add([]pos{p}, Sweep{Ints: []int{1, 0, 3, 1}}, 0)
+		add([]pos{p}, Sweep{Ints: []int{0, 1, 0}, Let: true}, 0)
+		add([]pos{p}, Sweep{Ints: []int{1, 0, 3, 1}}, p.s)
+	}
+	if len(ints) > 1 {
+		add(ints, Sweep{Ints: []int{0, 1, 2}, Key: true}, 0)
+		add(ints, Sweep{Ints: []int{1, 0, 1}, Let: true}, 0)
+	}
+	for _, p := range strs {
+		add([]pos{p}, Sweep{Strs: []string{"a", "b", "z", "a"}}, 0)
+		add([]pos{p}, Sweep{Strs: []string{"b", "a", "b"}, Let: true}, 0)
+		add([]pos{p}, Sweep{Strs: []string{"a", "b", "z", "a"}}, p.s)
+	}
+	if len(strs) > 1 {
+		add(strs, Sweep{Strs: []string{"a", "b", "a"}}, 0)
+	}
+	return out
+}
+
 // usage: how a path is placed in a template.
 type usage struct {
 	cuts  []Cut
@@ -1641,7 +1922,7 @@ func usages(steps []Step, letName string) []usage {
 	return out
 }
 
-const rule = "data: Root/Mid/Leaf/Inner graphs (value and pointer fields, nil pointers, slices, arrays, map[string], map[int], slices/maps of pointers with nil elements, interface-typed fields, value- and pointer-receiver methods with 0-2 arguments returning strings, structs, pointers, nil, slices and maps; the member names Name, Arr, M, IM, Any, Hello repeat at every depth) in 2 recipes x root passed as Root or *Root; every leaf string spells its own Go path with [A-Za-z0-9_.,()\\[\\]] only (keys and arguments unquoted). Paths: walks over the TYPE graph by reflection (field, index/key, method-call steps; literal and context-variable indexes, keys and arguments): (E1) every walk of <= L steps (quick: 3, plus every 5th walk of 4 steps; thorough: 4) that ends at a string or at a deliberately broken step (missing key, index = len and beyond, negative index, wrong key type, unknown / unexported member, field called as method, indexing a struct; nil pointers and short slices come from the data); (E2) two and three INDEXED levels r.C1[i].C2[j].C3[k] over every combination of collection-valued members; (R) random walks of up to 7+ steps with random root and variable names (names that collide with member names included). Each path is placed in <%= %> (once, and twice in a row), behind `let v = prefix` at every position, and as a `for (kk, v) in prefix` iterable at every index step (the rest continues from the loop variable; every element is checked), also let+for combined. Reference: a reflection walk of the same steps over a separate copy of the same data. Verdict per path: completable => output == the leaf's spelled path; not completable => error or empty output; a panic or any other text => violation; a clean failure of a completable path is a violation unless its shape is a listed open class. Non-trivial = broken path, or completable path of >= 3 steps containing an index, a method call or a cut; distinct by (recipe, root form, names, steps, cuts, twice)."
+const rule = "data: Root/Mid/Leaf/Inner graphs (value and pointer fields, nil pointers, slices, arrays, map[string], map[int], slices/maps of pointers with nil elements, interface-typed fields, value- and pointer-receiver methods with 0-2 arguments returning strings, structs, pointers, nil, slices and maps; the member names Name, Arr, M, IM, Any, Hello repeat at every depth) in 2 recipes x root passed as Root or *Root; every leaf string spells its own Go path with [A-Za-z0-9_.,()\\[\\]] only (keys and arguments unquoted). Paths: walks over the TYPE graph by reflection (field, index/key, method-call steps; literal and context-variable indexes, keys and arguments): (E1) every walk of <= L steps (quick: 3, plus every 5th walk of 4 steps; thorough: 4) that ends at a string or at a deliberately broken step (missing key, index = len and beyond, negative index, wrong key type, unknown / unexported member, field called as method, indexing a struct; nil pointers and short slices come from the data); (E2) two and three INDEXED levels r.C1[i].C2[j].C3[k] over every combination of collection-valued members; (R) random walks of up to 7+ steps with random root and variable names (names that collide with member names included). Each path is placed in <%= %> (once, and twice in a row), behind `let v = prefix` at every position, and as a `for (kk, v) in prefix` iterable at every index step (the rest continues from the loop variable; every element is checked), also let+for combined; (E3/R) SWEEPS: the whole body is put in one loop body and evaluated once per value of a variable q (loop key, loop value, or `let q = value` re-assigned in the loop scope) that stands for one or several inner indexes / keys / method arguments of the path, so the same expression node is evaluated 2-4 times in one scope with different inner indexes; every evaluation is compared with the reference walk for its value. Reference: a reflection walk of the same steps over a separate copy of the same data. Verdict per path: completable => output == the leaf's spelled path; not completable => error or empty output; a panic or any other text => violation; a clean failure of a completable path is a violation unless its shape is a listed open class. Non-trivial = broken path, or completable path of >= 3 steps containing an index, a method call or a cut; distinct by (recipe, root form, names, steps, cuts, twice)."
 
 func setup(t *testing.T) *vk.Run {
 	r := vk.Start(t, "C11", rule,
@@ -1736,6 +2017,20 @@ func TestProp(t *testing.T) {
 	})
 	r.Subspace(fmt.Sprintf("all type-graph walks of <= %d steps (%d paths; the quick tier adds every 5th walk of 4 steps) ending at a leaf or a broken step, literal x variable indexes, x usages (emit once/twice, let at each position, for at each index step, let+for) x 2 data recipes", L, full), nwalkCases, true)
 	r.Subspace(fmt.Sprintf("paths with 2 or 3 indexed levels r.C1[i].C2[j].C3[k] and r.C1[i].C2[j].tail over every combination of collection-valued members x 2 index choices x 4 literal/variable patterns (%d paths; the quick tier takes every 3rd) x usages x 2 data recipes", ndeep), ncases-nwalkCases, r.Thorough())
+
+	// (E3) sweeps: the same path expression evaluated several times in one loop
+	// body while one (or every) variable index / key / argument changes
+	var sweeps []Case
+	for i, p := range paths {
+		for _, sc := range sweepsOf(p.steps, []string{"x", "M"}[i%2], r.Quick()) {
+			for variant := 0; variant < 2; variant++ {
+				sc.Variant, sc.Ptr, sc.Root = variant, (i+variant)%2 == 1, "r"
+				sweeps = append(sweeps, sc)
+			}
+		}
+	}
+	r.Parallel(int64(len(sweeps)), 0, func(i int64) { r.Check(checkCase(r, sweeps[i])) })
+	r.Subspace("sweeps: for every path above and every variable index / key / method argument in it (one at a time - in the quick tier only those that follow an earlier index or call step, or are method arguments - and all of one type together): the whole body inside ONE loop that gives the variable 3-4 different values (loop key 0,1,2; loop value 1,0,3,1 / a,b,z,a; let q = value re-assigned in the loop scope 0,1,0 / b,a,b), also behind a let of the prefix, x 2 data recipes; every evaluation is compared with the reference walk for that value", int64(len(sweeps)), true)
 
 	if debug {
 		fmt.Printf("E phase done after %v\n", time.Since(t0))
@@ -1832,6 +2127,61 @@ func genCase(t *rapid.T) Case {
 		}
 		c.Cuts = append(c.Cuts, k)
 		last = at
+	}
+	// sweep: a quarter of the cases without a for-cut evaluate the body in a loop
+	// over values of one or several of the variable arguments
+	type pos struct{ s, a int }
+	var ints, strs []pos
+	for si, st := range c.Steps {
+		for ai, a := range st.A {
+			if a.Var && a.Int {
+				ints = append(ints, pos{si, ai})
+			} else if a.Var {
+				strs = append(strs, pos{si, ai})
+			}
+		}
+	}
+	if !usedFor && len(ints)+len(strs) > 0 && rapid.IntRange(0, 3).Draw(t, "sweep") == 0 {
+		ps := ints
+		if len(ints) == 0 || len(strs) > 0 && rapid.Bool().Draw(t, "sweepStrings") {
+			ps = strs
+		}
+		w := &Sweep{}
+		n := rapid.IntRange(2, 4).Draw(t, "sweepLen")
+		form := rapid.IntRange(0, 2).Draw(t, "sweepForm")
+		for i := 0; i < n; i++ {
+			switch {
+			case len(ps) > 0 && !c.Steps[ps[0].s].A[ps[0].a].Int:
+				w.Strs = append(w.Strs, rapid.SampledFrom([]string{"a", "b", "z"}).Draw(t, "sv"))
+			case form == 0:
+				w.Ints = append(w.Ints, i)
+			default:
+				w.Ints = append(w.Ints, rapid.IntRange(-1, 3).Draw(t, "iv"))
+			}
+		}
+		w.Key = form == 0 && len(w.Ints) > 0
+		w.Let = form == 2
+		marked := 0
+		for _, p := range ps {
+			if marked == 0 || rapid.Bool().Draw(t, "sweepThisToo") {
+				c.Steps[p.s].A = append([]Arg(nil), c.Steps[p.s].A...)
+				c.Steps[p.s].A[p.a].Sw = true
+				marked++
+			}
+		}
+		c.Sweep, c.Twice = w, false
+		reserved := map[string]bool{"q": true, "qk": true, "qv": true, "sw": true}
+		if reserved[c.Root] {
+			c.Root = "r"
+		}
+		for i := range c.Cuts {
+			if reserved[c.Cuts[i].V] {
+				c.Cuts[i].V = "x"
+			}
+			if c.Cuts[i].V == c.Root { // the let would overwrite the root for the next evaluation
+				c.Cuts[i].V += "2"
+			}
+		}
 	}
 	return c
 }
